@@ -247,17 +247,20 @@ ACCS = [[0, 1], [1, 2], [1, 1], [1, 1], [1, 1]]
 
 def gen_attack_world(rng, big=False):
     """legal world description (state set directly), asymmetric by construction, + actor description"""
+    huge = rng.random() < 0.05          # what the small scopes never reach: sizes, counts and ranges of 8 and more
     while True:
         rows, cols = rng.randint(1, 6 if big else 5), rng.randint(1, 6)
+        if huge:
+            rows, cols = rng.randint(9, 14), rng.randint(8, 13)
         if rows != cols:
             break
-    nenc = rng.randint(1, 3)
+    nenc = rng.randint(4, 11) if huge else rng.randint(1, 3)
     encs = list(range(1, nenc + 1))
     overlap = gridw.gen_overlap(rng, encs)
     if rng.random() < 0.35:      # pile-ups need a permissive table
         overlap = [[e, list(encs)] for e in encs]
     sym = gridw.closed(overlap)
-    n = rng.randint(2, 7)
+    n = rng.randint(10, 14) if huge else rng.randint(2, 7)
     # the main attacker: off-centre
     cells = [(r, c) for r in range(rows) for c in range(cols) if (2 * r != rows - 1 or 2 * c != cols - 1)]
     apos = rng.choice(cells)
@@ -272,10 +275,13 @@ def gen_attack_world(rng, big=False):
             a["strength"] = rng.choice(STRENGTHS)
             a["accuracy"] = rng.choice(ACCS)
             a["sim_attacks"] = rng.choice([0, 1, 1, 2, 2, 3])
+            if huge:
+                a["attack_range"] = rng.choice([4, 5, 8, 9, 12, "FULL", max(rows, cols) + 1])
+                a["sim_attacks"] = rng.choice([1, 2, 3, 9, 10, 12])
         ammo = 0
         if rng.random() < 0.5:
             a["has_ammo"] = True
-            a["init_ammo"] = rng.randint(0, 4)
+            a["init_ammo"] = rng.choice([9, 10, 11, 99, 100]) if huge else rng.randint(0, 4)
             ammo = rng.randint(0, a["init_ammo"])
         health = rng.choice(HEALTHS)
         if i > 0 and rng.random() < 0.12:
@@ -286,7 +292,7 @@ def gen_attack_world(rng, big=False):
                 if i == 0:
                     p = apos
                 else:
-                    lim = 2 if rng.random() < 0.7 else 3
+                    lim = (rng.choice([2, 5, 8, 12]) if huge else 2) if rng.random() < 0.7 else 3
                     dr, dc = rng.randint(-lim, lim), rng.randint(-lim, lim)
                     if abs(dr) == abs(dc) and rng.random() < 0.8:
                         continue          # most victims at offsets with |dr| != |dc|
